@@ -241,6 +241,7 @@ impl GraphEngine {
             pending_label_additions: Vec::new(),
             pending_label_removals: Vec::new(),
             created_external_ids: std::collections::HashSet::new(),
+            max_created_external_id: 0,
             memtable: MemTable::default(),
         }
     }
@@ -820,6 +821,8 @@ pub struct WriteTxn<'a> {
     pending_label_additions: Vec<(InternalNodeId, LabelId)>,
     pending_label_removals: Vec<(InternalNodeId, LabelId)>,
     created_external_ids: std::collections::HashSet<ExternalId>,
+    /// Largest external id created in this transaction (0 if none).
+    max_created_external_id: ExternalId,
     memtable: MemTable,
 }
 
@@ -845,7 +848,29 @@ impl<'a> WriteTxn<'a> {
 
         self.created_nodes
             .push((external_id, label_id, internal_id));
+        self.max_created_external_id = self.max_created_external_id.max(external_id);
         Ok(internal_id)
+    }
+
+    /// Creates a node whose external id is chosen by the store: `proposed` if it lies above
+    /// every id ever assigned (committed, deleted or created in this transaction), otherwise
+    /// the next id above them. Callers that derive `proposed` from a clock therefore never
+    /// collide, whatever the clock does.
+    pub fn create_node_auto_id(
+        &mut self,
+        proposed: ExternalId,
+        label_id: LabelId,
+    ) -> Result<InternalNodeId> {
+        let committed = self.engine.idmap.lock().unwrap().max_external_id();
+        let floor = committed.max(self.max_created_external_id);
+        let external_id = if proposed > floor {
+            proposed
+        } else {
+            floor
+                .checked_add(1)
+                .ok_or(Error::WalProtocol("external id space exhausted"))?
+        };
+        self.create_node(external_id, label_id)
     }
 
     pub fn add_node_label(&mut self, node: InternalNodeId, label_id: LabelId) -> Result<()> {
